@@ -696,6 +696,8 @@ def is_comptime_expression(node: ast.AST) -> ComptimeExpr | None:
         and isinstance(node.func, ast.Name)
         and node.func.id in ("py", "comptime")
     ):
+        if len(node.keywords) > 0:
+            raise GuppyError(UnsupportedError(node.keywords[0], "Keyword arguments"))
         match node.args:
             case []:
                 raise GuppyError(EmptyComptimeExprError(node))
